@@ -18,11 +18,11 @@ RULE = ('one generated spec is built (1) as a hand-written spied chart, (2) with
         'Every fourth case registers (adds or replaces) 1-4 reactions with register_signal_callback AFTER the chart has already run events and compares with a hand-written chart whose reactions change at that moment. In every third case a share of the callbacks are bound methods of a DELEGATE object (not of the chart), which the template calls with the event only. In every second case a SECOND template chart that shares the first chart\'s state names but has a different design (nesting, '
         'reactions, callbacks) is assembled after the first and is alive while the first runs; it is then driven itself and must follow '
         'its own design (reference model) - whatever one chart registers belongs to that chart only. '
-        'distinct_nontrivial = distinct (build, states, transitions, declines) tuples')
+        'Every eighth case gives one callback NO status for a user signal (a guarded reaction that falls off its end): a hand-written state that calls the same callbacks passes the None on and the event processor rejects it - the template and the to_code text must do the same, step for step (actions, rest state, exception). distinct_nontrivial = distinct (build, states, transitions, declines) tuples')
 CASES = {'quick': 2500, 'thorough': 100000}
 BUDGET = {'quick': 150, 'thorough': 300}
 REQUIRE = {'template_builds': 800, 'to_code_builds': 800, 'factory_builds': 50, 'steps_compared': 20000, 'declines': 200,
-           'decoy_charts_alive_with_shared_state_names': 500, 'template_builds_with_delegate_callbacks': 150, 'late_registration_cases': 300}
+           'decoy_charts_alive_with_shared_state_names': 500, 'template_builds_with_delegate_callbacks': 150, 'late_registration_cases': 300, 'statusless_callback_cases': 200, 'statusless_callback_reached_and_rejected': 100}
 ASSUME = ['signal and state names are Python identifiers (to_code emits signals.NAME and def NAME)']
 
 
@@ -222,9 +222,135 @@ def late_registration_case(ctx, n):
       return
 
 
+def statusless_callback_case(ctx, n):
+  """one registered callback answers a user signal WITHOUT a status (a guarded reaction that falls off its end: `if chart.armed:
+  return chart.trans(x)` and nothing else).  A hand-written state passes that None on to the event processor - and so does the
+  text to_code writes (`status = cb(chart, e)` ... `return status`) - which rejects it; the templated chart must do the same
+  thing, step for step: same actions, same rest state, same exception (the run ends at the first exception)"""
+  rng = ctx.rng('statusless', n)
+  spec = cg.gen_spec(rng, nmax=rng.choice([3, 5, 8]), name_style='plain', p_clause=0.85, nsig=rng.randint(2, 3))
+  spec['sigs'] = spec['sigs'][:-1] + ['ZZ']
+  names = spec['names']
+  start = rng.randrange(spec['n'])
+  keys = sorted(k for k in spec['react'])
+  if not keys:
+    return
+  # the statusless reaction sits on the start state's path to the top in most cases (so that the script reaches it)
+  path = cg.anc(spec, start)
+  on_path = [k for k in keys if int(k.split(':')[0]) in path]
+  bad = rng.choice(on_path) if on_path and rng.random() < 0.8 else rng.choice(keys)
+  bi, bsg = int(bad.split(':')[0]), bad.split(':')[1]
+  script = cg.gen_script(rng, spec, rng.randint(0, 3)) + [bsg] + cg.gen_script(rng, spec, rng.randint(2, 8))
+  wit = {'spec': spec, 'start': start, 'script': script, 'callback_without_status': {'state': names[bi], 'signal': bsg}}
+
+  def callbacks(log, fns, cnt):
+    cbs = make_callbacks(spec, log, fns, cnt)
+
+    def cb(chart, e):
+      log.append(('offer', names[bi], bsg))       # ... and falls off its end
+    cb.__name__ = 'cb_%s_%s' % (names[bi], bsg)
+    cbs[(bi, bsg)] = cb
+    return cbs
+
+  def drive(chart, start_fn, log, reset):
+    out = []
+    chart.start_at(start_fn)
+    out.append((relevant(spec, list(log)), chart.state_name, None))
+    for sn in script:
+      del log[:]
+      reset()
+      chart.post_fifo(Event(signal=sn))
+      exc = None
+      try:
+        chart.next_rtc()
+      except cg.Budget:
+        raise
+      except Exception as ex:
+        exc = type(ex).__name__
+      out.append((relevant(spec, list(log)), chart.state_name, exc))
+      if exc:
+        break
+    return out
+  budget = [0]
+
+  class Counted(HsmWithQueues):
+    def top(self, *a):
+      budget[0] += 1
+      if budget[0] > 20000:
+        raise cg.Budget()
+      return HsmWithQueues.top(self, *a)
+  reset = lambda: budget.__setitem__(0, 0)
+  # ---- build 1: hand-written states that call the same callbacks and pass their answer on
+  log1, fns1, cnt1 = [], {}, [0]
+  cbs1 = callbacks(log1, fns1, cnt1)
+  c1 = Counted()
+
+  def mk_state(i):
+    def st(chart, e):
+      cb = cbs1.get((i, e.signal_name))
+      status = cb(chart, e) if cb is not None else RS.UNHANDLED
+      if cb is None and e.signal_name in ('ENTRY_SIGNAL', 'EXIT_SIGNAL', 'INIT_SIGNAL'):
+        return RS.HANDLED
+      if status == RS.UNHANDLED:
+        p = spec['parent'][i]
+        chart.temp.fun = chart.top if p is None else fns1[names[p]]
+        status = RS.SUPER
+      return status
+    st.__name__ = names[i]
+    return spy_on(st)
+  for i in range(spec['n']):
+    fns1[names[i]] = mk_state(i)
+  try:
+    ref = drive(c1, fns1[names[start]], log1, reset)
+  except cg.Budget:
+    ctx.count('other_property_disagreements')
+    return
+  ctx.count('statusless_callback_cases')
+  if ref[-1][2]:
+    ctx.count('statusless_callback_reached_and_rejected')
+  ctx.distinct(('statusless', spec['n'], len(ref), ref[-1][2]))
+  # ---- build 2: template
+  log2, fns2, cnt2 = [], {}, [0]
+  cbs2 = callbacks(log2, fns2, cnt2)
+  c2 = Counted()
+  build_template(c2, spec, cbs2, fns2)
+  # ---- build 3: to_code text
+  log3, fns3, cnt3 = [], {}, [0]
+  cbs3 = callbacks(log3, fns3, cnt3)
+  ns = {'spy_on': spy_on, 'signals': signals, 'return_status': RS}
+  for cb in cbs3.values():
+    ns[cb.__name__] = cb
+  try:
+    for i in range(spec['n']):
+      exec(c2.to_code(fns2[names[i]]), ns)
+  except Exception as ex:
+    ctx.violation('C17/to-code-text-invalid', 'to_code text could not be produced/executed: %s: %s' % (type(ex).__name__, ex), wit)
+    return
+  for nm in names:
+    fns3[nm] = ns[nm]
+  c3 = Counted()
+  for tag, chart, fns, log in (('template', c2, fns2, log2), ('to_code', c3, fns3, log3)):
+    try:
+      got = drive(chart, fns[names[start]], log, reset)
+    except cg.Budget:
+      ctx.violation('C17/%s-does-not-terminate' % tag.replace('_', '-'), '%s build exceeded the step budget (one callback returns no status)' % tag, wit)
+      return
+    ctx.count('steps_compared', len(got))
+    for k, (g, r) in enumerate(zip(got, ref)):
+      if g != r:
+        ctx.violation('C17/%s-differs-from-hand-written' % tag, '%s build, step %d (%s), the callback of %s for %s returns no status: log %r rest %s exception %s; hand-written chart: log %r rest %s exception %s' % (
+          tag, k - 1, script[k - 1] if k else 'start_at', names[bi], bsg, g[0], g[1], g[2], r[0], r[1], r[2]), dict(wit, failing_step=k - 1))
+        return
+    if len(got) != len(ref):
+      ctx.violation('C17/%s-differs-from-hand-written' % tag, '%s build ran %d steps, the hand-written chart %d (one callback returns no status)' % (tag, len(got) - 1, len(ref) - 1), wit)
+      return
+
+
 def run_case(ctx, n):
   if n % 4 == 2:
     return late_registration_case(ctx, n)
+  if n % 8 == 5:
+    return statusless_callback_case(ctx, n)
   rng = ctx.rng('case', n)
   spec = cg.gen_spec(rng, nmax=rng.choice([3, 6, 10]), name_style=rng.choice(cg.NAME_STYLES), p_clause=rng.choice([0.5, 0.85]),
                      nsig=rng.randint(2, 5))
